@@ -17,7 +17,7 @@ OUTSIDE_MONO = {"Logit": "value*(1-value) product form", "LogSinh": "coth form",
 TOL_SYMS = {"mininu", "EPS"}
 
 
-def domain_ok(cond, fchain, rep_detail):
+def domain_ok(cond, fchain, rep_detail, tol=None):
     """jacobian mask `g(x) > t`: chain of (lhs - rhs) must equal, up to an additive tolerance constant, the
     prefix of the forward chain that feeds its first log / pow operation.  -> (ok | None, detail)"""
     if cond[0] in ('and', 'or'):
@@ -56,7 +56,7 @@ def domain_ok(cond, fchain, rep_detail):
             if not x[1] == y[1]:
                 return False, f"mask slope {x[1]} vs forward slope {y[1]}"
             d = x[2] - y[2]
-            if not (d.is_zero() or d.symbols() <= TOL_SYMS):
+            if not (d.is_zero() or d.symbols() <= (TOL_SYMS if tol is None else tol)):
                 return False, f"mask offset differs from the forward argument by {d}, not a tolerance constant"
     return True, f"mask bounds {F.show_chain(pre)} from below"
 
